@@ -146,9 +146,10 @@ class DecFileNotParsed(RuntimeError):""")],
         "why": "file lines are cut at '#' before parsing and the line end is lost with the comment (string input untouched)",
         "edits": [(DEC, "                            stream.write(line)\n", "                            stream.write(line.split('#', 1)[0] if '#' in line else line)\n")],
     },
-    "c02_refactor_read_whole_file": {
-        "prop": "C02", "expect": "pass", "opts": {"gen_runs": 96, "fault_runs": 48, "file_deliveries": 0},
-        "why": "behaviour-preserving: file read with builtin open() and splitlines(keepends=True) instead of Path.open and line iteration",
+    "c02_read_whole_file_splitlines": {
+        "prop": "C02", "expect": "caught", "opts": {"gen_runs": 160, "fault_runs": 0, "file_deliveries": 0},
+        "why": "file read with builtin open() and str.splitlines(keepends=True): looks equivalent to line iteration but also splits at form feed, "
+               "NEL and U+2028 inside comments (was filed as a harmless refactor until those characters joined the comment alphabet)",
         "edits": [(DEC, """                with filename.open(encoding="utf_8_sig") as file:
                     for line in file:""", """                with open(filename, encoding="utf_8_sig") as file:
                     for line in file.read().splitlines(keepends=True):""")],
@@ -596,5 +597,15 @@ MUTANTS.update({
 """, """                if not os.path.isfile(os.fspath(filename.resolve())) or filename.stat().st_size < 0:
                     raise FileNotFoundError(f"{str(filename)!r}!")
 """)],
+    },
+})
+
+MUTANTS.update({
+    "c02_refactor_read_whole_file_split_newline": {
+        "prop": "C02", "expect": "pass", "opts": {"gen_runs": 96, "fault_runs": 48, "file_deliveries": 0},
+        "why": "behaviour-preserving: file read in one piece with builtin open() and cut at '\\n' only",
+        "edits": [(DEC, """                with filename.open(encoding="utf_8_sig") as file:
+                    for line in file:""", """                with open(filename, encoding="utf_8_sig") as file:
+                    for line in [x + "\\n" for x in file.read().split("\\n")]:""")],
     },
 })
